@@ -1511,3 +1511,12 @@ Lemma end_block_is_run_of_substeps_proof : forall s h now groups ests f pf,
   fst (step s (OEndBlockFull h now groups ests f pf)) = run s (eb_tr x) /\
   Forall (fun o => sub_op o = true) (eb_tr x).
 Proof. intros; split; [apply step_full_run | apply (proj2 (end_block_full_ok f pf h now groups ests s))]. Qed.
+
+(** round 3: the deferred "commit only if v == nil" of the four cached-context functions reads a
+    NAMED RESULT, so every return statement — also one that builds a fresh error after a collaborator
+    answered "not found" without an error — assigns it before the deferred function looks at it
+    (with a local variable such a return would commit the half-done change: seeded C01-E). *)
+Lemma code_shape3_proof :
+  deferred_commit_reads_named_result =
+    ["BuildOutgoingTXBatch"; "CancelOutgoingTXBatch"; "OutgoingTxBatchExecuted"; "UpdateBatchGasEstimate"].
+Proof. reflexivity. Qed.
